@@ -10,6 +10,7 @@ import CruxVerif.Lemmas.RRun
 import CruxVerif.Lemmas.Park
 import CruxVerif.Lemmas.GPark
 import CruxVerif.Lemmas.RCore
+import CruxVerif.Lemmas.LQ
 namespace Props.C07
 open M.Rt
 
@@ -286,6 +287,65 @@ theorem evict_complete_anywhere_false : ¬ evict_complete_anywhere := by
   have := hg d.w d.cid (fun l hl => allGone_spec d.w hall l hl) w' hs
   rw [hd] at this
   cases this
+
+/-- **A REGISTERED WAKER MEANS A LIVE SENDER — over whole runs** (global invariant `LQ`, Lemmas/LQ.lean: one `grind` call over
+    `pollBlock`, then `run_task`, finishing, spawning, settling, the shell's resolve / drop / abort). For every host-free task
+    program under the direct host, after every history: a request or stream channel in which a waker is registered still has
+    its sender (the `Request` the shell holds, not yet resolved-and-consumed nor dropped). The receiving side registers only
+    after it has seen the sender alive; the sending side takes the waker when it resolves or goes away. -/
+theorem registered_waker_means_live_sender (is : List Instr) (hf : hostFreeIs is = true) (canon : Bool)
+    (acts : List M.Hosts.Action) (os : List M.Hosts.Obs) (d : M.Hosts.Direct)
+    (h : M.Hosts.runDirect (.task is) canon acts = some (os, d)) (l : Nat) (k : Waker) (hk : (d.w.leaf l).waker = some k) :
+    (d.w.leaf l).senderAlive = true ∨ (d.w.leaf l).legacy = true :=
+  (M.Hosts.runDirect_gl is hf canon acts os d h).2 l k hk
+
+/-- **WHAT IS LEFT WHEN EVERY REQUEST IS GONE** (the provable half of completeness). For every host-free task program under
+    the direct host, after every history that leaves the command settled (empty ready queue) and every channel closed: every
+    task still stored (and not aborted through its join handle) is suspended ONLY at requests whose channel it has already
+    seen closed (`reqDead`), at join handles or at hosted commands — at no request or stream the shell could still answer,
+    and at no channel whose closing it has not noticed (that closing woke it: `GInv` + `LQ`). Such a task is exactly what
+    `run_task` evicts when it polls it; what the code lacks — and `completeness_fails_with_handoff` exploits — is anything
+    that polls it again. -/
+theorem all_requests_gone_leaves_only_dead_waits (is : List Instr) (hf : hostFreeIs is = true) (canon : Bool)
+    (acts : List M.Hosts.Action) (os : List M.Hosts.Obs) (d : M.Hosts.Direct)
+    (h : M.Hosts.runDirect (.task is) canon acts = some (os, d)) (hr : (d.w.cmd d.cid).ready = [])
+    (hall : ∀ l, l < d.w.leaves.length → (d.w.leaf l).senderAlive = false ∧ (d.w.leaf l).legacy = false)
+    (tid : Nat) (t : Task) (hg : (d.w.cmd d.cid).tasks.get? tid = some t) (hna : (d.w.getMeta t.serial).aborted = false) :
+    goneOnlyB t.fut = true := by
+  obtain ⟨s, hp⟩ := settled_tasks_are_parked is hf canon acts os d h hr tid t hg hna
+  exact goneOnly_of_parked _ d.w (M.Hosts.runDirect_gl is hf canon acts os d h).2 hall t.fut hp
+
+/-- … and a stored task that still waits at a request or stream names a channel the shell can still resolve or drop: some
+    sender is alive (contrapositive, the form a user relies on: a command that is not done while requests are outstanding
+    is waiting for one of THEM) -/
+theorem task_waiting_at_request_has_live_sender (is : List Instr) (hf : hostFreeIs is = true) (canon : Bool)
+    (acts : List M.Hosts.Action) (os : List M.Hosts.Obs) (d : M.Hosts.Direct)
+    (h : M.Hosts.runDirect (.task is) canon acts = some (os, d)) (hr : (d.w.cmd d.cid).ready = [])
+    (tid : Nat) (t : Task) (hg : (d.w.cmd d.cid).tasks.get? tid = some t) (hna : (d.w.getMeta t.serial).aborted = false)
+    (hw : goneOnlyB t.fut = false) :
+    ∃ l, l < d.w.leaves.length ∧ ((d.w.leaf l).senderAlive = true ∨ (d.w.leaf l).legacy = true) := by
+  apply Classical.byContradiction
+  intro hne
+  have hall : ∀ l, l < d.w.leaves.length → (d.w.leaf l).senderAlive = false ∧ (d.w.leaf l).legacy = false := by
+    intro l hl
+    have := fun hx => hne ⟨l, hl, hx⟩
+    constructor
+    · cases hs : (d.w.leaf l).senderAlive with
+      | false => rfl
+      | true => exact (this (Or.inl hs)).elim
+    · cases hs : (d.w.leaf l).legacy with
+      | false => rfl
+      | true => exact (this (Or.inr hs)).elim
+  have := all_requests_gone_leaves_only_dead_waits is hf canon acts os d h hr hall tid t hg hna
+  rw [hw] at this
+  cases this
+
+/-- non-vacuity, and the link to the refutation: the task stranded by the handoff history is such a task — every channel
+    closed and non-legacy, ready queue empty, its block `join(done, reqDead)` (kernel evaluation) -/
+example : ((M.Hosts.runDirect (.task handoffProg) false handoffActs).map fun r =>
+    (r.2.w.leaves.all (fun lf => !lf.senderAlive && !lf.legacy), (r.2.w.cmd r.2.cid).ready,
+     (r.2.w.cmd r.2.cid).tasks.values.map (fun t => goneOnlyB t.fut && !(r.2.w.getMeta t.serial).aborted))) =
+    some (true, [], [true]) := by decide +kernel
 
 -- no `handoff` anywhere in the program
 mutual
